@@ -415,7 +415,9 @@ static int finish_violation(World &w, Plan &p, const Result &first, const char *
 }
 
 int sim_main(int argc, char **argv) {
+	alarm(120); // world construction (process-global warm-up) happens before any per-run watchdog
 	World &w = *the_world();
+	alarm(0);
 	if (argc < 2) { fprintf(stderr, "usage: %s run|gen|shrink|replay|sweep ...\n", argv[0]); return 2; }
 	std::string mode = argv[1];
 	setvbuf(stdout, 0, _IOLBF, 0);
